@@ -615,10 +615,10 @@ def project(plan, gens, cmds, tr, quiet, quiet_at, exit_ev, geoms, idles=()):
                 evs.append({"ev": "tw", "seq": e["seq"]})
             elif during == "change-preview-window":
                 if e.get("arg") == "hidden":
-                    evs.append({"ev": "cpw", "hidden": True, "H": 0, "W": 0, "seq": e["seq"]})
+                    evs.append({"ev": "cpw", "hidden": True, "H": 0, "W": 0, "wrap0": plan.wrap, "seq": e["seq"]})
                 elif e.get("arg") in LAYOUTS:
                     g = geoms[LAYOUTS.index(e["arg"])]
-                    evs.append({"ev": "cpw", "hidden": False, "H": g[3], "W": g[2], "layout": e["arg"], "seq": e["seq"]})
+                    evs.append({"ev": "cpw", "hidden": False, "H": g[3], "W": g[2], "wrap0": plan.wrap, "layout": e["arg"], "seq": e["seq"]})
                 else:
                     raise Infra("change-preview-window with an argument the driver never sends: %r" % e.get("arg"))
         elif k == "term.loop":
